@@ -12,6 +12,15 @@
 // Worker threads are REAL threads (SchedParams::real_threads) and may create further
 // short-lived threads, so thread exit (boost::thread_specific_ptr cleanup -> tls_cleanup ->
 // record state `removed`) is interleaved with combining and list compaction.
+//
+// Lifecycle: the kernel is constructed and destroyed by the main thread inside the session and
+// outlives every client thread (all workers and children have really exited before it goes).
+// Threads created by bodies are NOT joined by their parents (a parent waits for the child's TLS
+// cleanup flag instead): pthread_t values are recycled after a join and the runtime's interposed
+// pthread_join looks threads up by handle, so the main thread joins all of them after the schedule
+// has drained.
+//
+// FCK_TRACE=1 prints the event history of a case to stderr (use with --replay).
 #include "common.h"
 
 #include <cds/algo/flat_combining/kernel.h>
@@ -308,7 +317,7 @@ namespace {
                 fail( "kernel freed a pointer that is not a publication record" );
                 return;
             }
-            if ( it->second == 0 ) {
+            if ( it->second != 1 ) {
                 fail( "publication record deleted twice" );
                 return;     // do not free again: let the case finish and report
             }
